@@ -98,10 +98,10 @@ def property_failures(r):
 
 def gen_cases(ctx, quick):
     rng = ctx.rng
-    n_hist = 400 if quick else 3000
-    n_sprop = 500 if quick else 4000
-    n_real = 160 if quick else 900
-    max_atoms = 100 if quick else 300
+    n_hist = 600 if quick else 6000
+    n_sprop = 800 if quick else 8000
+    n_real = 300 if quick else 2500
+    max_atoms = 120 if quick else 300
     cases = []
     for c in K.load_corpus(PID):
         c = dict(c)
